@@ -97,6 +97,8 @@ static Eigen::Matrix3d boxmat(const std::string &b) {
   if (b == "cubic") m.diagonal() << 8, 8, 8;
   else if (b == "ortho") m.diagonal() << 10, 12, 14;
   else if (b == "tric") { m.col(0) = V3(10, 0, 0); m.col(1) = V3(2, 12, 0); m.col(2) = V3(1, 3, 14); }
+  else if (b == "tric2") { m.col(0) = V3(9, 0, 0); m.col(1) = V3(-3, 11, 0); m.col(2) = V3(2, -4, 12); }
+  else if (b == "big") m.diagonal() << 25, 30, 40;
   return m;
 }
 static void motion(int k, Eigen::Matrix3d &R, V3 &t) {
@@ -108,6 +110,10 @@ static void motion(int k, Eigen::Matrix3d &R, V3 &t) {
     case 3: R << 0, 0, 1, 1, 0, 0, 0, 1, 0; break;  // 120 degrees about (1,1,1)
     case 4: R = Eigen::AngleAxisd(0.7, V3(1, 2, 3).normalized()).toRotationMatrix(); t = V3(0.25, 1.0, -0.5); break;
     case 5: R = Eigen::AngleAxisd(2.1, V3(-2, 1, 0.5).normalized()).toRotationMatrix(); t = V3(-3, 0.5, 4); break;
+    case 6: R = Eigen::AngleAxisd(PI, V3(1, 0, 1).normalized()).toRotationMatrix(); t = V3(0.5, 0.5, 0.5); break;
+    case 7: R = Eigen::AngleAxisd(1.3, V3::UnitX()).toRotationMatrix(); t = V3(10, -20, 5); break;
+    case 8: R = Eigen::AngleAxisd(3.0, V3(0.2, -1, 0.4).normalized()).toRotationMatrix(); break;
+    case 9: R = Eigen::AngleAxisd(-0.4, V3::UnitY()).toRotationMatrix(); t = V3(-0.125, 7, -2.5); break;
   }
 }
 struct Geo { std::string kind; double l[3] = {1, 1, 1}, th[2] = {90, 90}, phi = 0; int nb = 2; };
@@ -294,7 +300,8 @@ static void run_potfun(std::map<std::string, std::string> &m, Res &R) {
   PotentialFunction &f = *P.f;
   std::string K = P.form;
   std::vector<double> rs;
-  for (int k = 0; k <= 8; k++) rs.push_back(k == 8 ? P.cut : P.mn + k * (P.cut - P.mn) / 8);
+  int nr = m.count("nr") ? atoi(m["nr"].c_str()) : 9;
+  for (int k = 0; k < nr; k++) rs.push_back(k == nr - 1 ? P.cut : P.mn + k * (P.cut - P.mn) / (nr - 1));
   if (P.form == "cbspl") {  // spline breaks, and their floating-point neighbours
     int nbreak = (int)f.getParamSize() - 2;
     for (int k = 1; k < nbreak - 1; k++) {
@@ -432,14 +439,14 @@ static Res run_case(const std::string &cas) {
 static std::string join(const std::vector<std::string> &v) {
   std::string s; for (size_t i = 0; i < v.size(); i++) s += (i ? "," : "") + v[i]; return s;
 }
-// Only the cases of this shard are stored (index i belongs to the shard iff a.mine(i)); the
-// enumeration order is the same in every shard.
+// Cases are streamed: index i belongs to this shard iff a.mine(i); the enumeration order is the
+// same in every shard.
 struct CaseList {
   const bsx::Args &a;
   long long n = 0;
-  std::vector<std::string> mine;
+  std::function<void(const std::string &)> sink;
   explicit CaseList(const bsx::Args &aa) : a(aa) {}
-  void push_back(const std::string &s) { if (a.mine(n)) mine.push_back(s); n++; }
+  void push_back(const std::string &s) { if (a.mine(n)) sink(s); n++; }
 };
 static void all_cases(bool thorough, CaseList &C) {
   const std::vector<std::string> L = {"1", "0.5", "2"};
@@ -462,54 +469,101 @@ static void all_cases(bool thorough, CaseList &C) {
       }
     }
   };
+  if (!thorough) {
   for (auto &l1 : L) variants("bond", 2, "l=" + l1, true);
   for (auto &l1 : L) for (auto &l2 : L) for (auto &a : ANG) variants("angle", 3, "l=" + l1 + "," + l2 + ";th=" + a, true);
   {
     std::vector<std::pair<std::string, std::string>> TH = {{"90", "90"}, {"60", "120"}, {"45", "135"}};
-    if (thorough) TH = {{"90", "90"}, {"60", "120"}, {"45", "45"}, {"120", "60"}, {"135", "90"}, {"90", "45"}, {"45", "135"}, {"120", "120"}, {"60", "60"}};
     for (auto &l1 : L) for (auto &l2 : L) for (auto &l3 : L) for (auto &t : TH) for (auto &ph : PHI)
       variants("dihedral", 4, "l=" + l1 + "," + l2 + "," + l3 + ";th=" + t.first + "," + t.second + ";phi=" + ph, true);
   }
+  } else {
+    // thorough lattice: bond lengths {0.5,0.8,1,1.5,2}, angles 10..170 step 2.5, dihedrals -165..165 step 15 (without 0),
+    // dihedral bond angles {45,60,90,120,135,150}^2, 10 rigid motions, 5 boxes, 8 box-vector combinations per bead
+    const std::vector<std::string> LB = {"1", "0.5", "2", "0.8", "1.5"}, LD = {"1", "0.5", "2", "0.8", "1.5"};
+    std::vector<std::string> ANG2{"90"};
+    for (int a2 = 20; a2 <= 340; a2 += 5) if (a2 != 180) ANG2.push_back(std::to_string(a2 / 2) + (a2 % 2 ? ".5" : ""));  // 10..170 step 2.5
+    std::vector<std::string> PHI2; for (int a = -165; a <= 165; a += 15) if (a != 0) PHI2.push_back(std::to_string(a));
+    const std::vector<std::string> BA = {"90", "60", "120", "45", "135", "150"};
+    const std::vector<std::string> SH2 = {"1:0:0", "0:-1:0", "0:0:1", "-1:1:-1", "2:0:0", "0:0:-2", "1:1:0", "1:-1:1"};
+    const std::vector<std::string> BOX2 = {"cubic", "ortho", "tric", "tric2", "big"};
+    const std::vector<int> MALL = {0, 1, 2, 3, 4, 5, 6, 7, 8, 9}, MSUB = {0, 2, 4, 7, 8};
+    auto deep = [&](const std::string &kind, int nb, const std::string &geo, const std::vector<int> &boxmot) {
+      std::string head = "b;kind=" + kind + ";" + geo;
+      for (int mot : MALL) C.push_back(head + ";box=open;mot=" + std::to_string(mot) + ";sh=none");
+      for (int mot : boxmot)
+        for (auto &box : BOX2) {
+          std::string hb = head + ";box=" + box + ";mot=" + std::to_string(mot) + ";sh=";
+          C.push_back(hb + "none");
+          for (int b = 0; b < nb; b++) for (auto &sh : SH2) C.push_back(hb + std::to_string(b) + ":" + sh);
+        }
+    };
+    for (auto &l1 : LB) deep("bond", 2, "l=" + l1, MALL);
+    for (auto &l1 : LB) for (auto &l2 : LB) for (auto &a : ANG2) deep("angle", 3, "l=" + l1 + "," + l2 + ";th=" + a, MALL);
+    for (auto &l1 : LD) for (auto &l2 : LD) for (auto &l3 : LD) for (auto &t1 : BA) for (auto &t2 : BA) for (auto &ph : PHI2)
+      deep("dihedral", 4, "l=" + l1 + "," + l2 + "," + l3 + ";th=" + t1 + "," + t2 + ";phi=" + ph, MSUB);
+  }
   // potential functions
   {
-    const std::vector<std::pair<std::string, std::string>> RNG = {{"0.5", "1.5"}, {"0.3", "1.2"}};
-    const std::vector<std::string> C12 = {"1", "0.5", "2"}, C6 = {"1", "0.5", "2"}, A = {"0.5", "-1", "2"}, W = {"2", "0.5", "8"}, R0 = {"0.8", "0.4", "1.1"};
-    std::vector<std::string> ljcases, tabcases;
+    std::vector<std::pair<std::string, std::string>> RNG = {{"0.5", "1.5"}, {"0.3", "1.2"}};
+    std::vector<std::string> LC12 = {"1", "0.5", "2"}, LC6 = {"1", "0.5", "2"};
+    std::vector<std::string> C12 = {"1", "0.5", "2"}, C6 = {"1", "0.5", "2"}, A = {"0.5", "-1", "2"}, W = {"2", "0.5", "8"}, R0 = {"0.8", "0.4", "1.1"};
+    std::string nr = "";
+    if (thorough) {
+      RNG.push_back({"0.8", "2.5"});
+      LC12 = {"1", "0.5", "2", "0.1", "10"}; LC6 = LC12;
+      A.push_back("-0.25"); W.push_back("4"); R0.push_back("1.6");
+      nr = ";nr=17";
+    }
+    // SavePotTab configurations per range: (step, overload, rmin, rcut); every range is a multiple of the step
+    struct TC { std::string step; int ov; std::string rmin, rcut; };
+    auto tabs = [&](const std::string &mn, bool lj) {
+      std::vector<TC> v;
+      if (mn == "0.5") {
+        if (lj) v = {{"0.1", 1, "", ""}, {"0.1", 2, "0.25", "1.75"}, {"0.25", 1, "", ""}, {"0.25", 2, "0.25", "1.75"}};
+        else v = {{"0.1", 1, "", ""}, {"0.05", 2, "0.5", "1.5"}};
+        if (thorough) { v.push_back({"0.05", 1, "", ""}); v.push_back({"0.02", 1, "", ""}); v.push_back({"0.125", 2, "0.25", "1.75"}); }
+      } else if (mn == "0.3") {
+        if (lj) v = {{"0.1", 1, "", ""}, {"0.1", 2, "0.2", "1.2"}, {"0.15", 1, "", ""}, {"0.15", 2, "0.15", "1.2"}};
+        else v = {{"0.1", 1, "", ""}, {"0.05", 2, "0.3", "1.2"}};
+        if (thorough) { v.push_back({"0.05", 1, "", ""}); v.push_back({"0.03", 1, "", ""}); }
+      } else {
+        v = {{"0.1", 1, "", ""}, {"0.05", 1, "", ""}, {"0.25", 2, "0.5", "2.5"}, {"0.1", 2, "0.8", "2.5"}};
+      }
+      return v;
+    };
+    auto tabstr = [&](const std::string &base, const TC &t) {
+      return "t;" + base + ";step=" + t.step + ";ov=" + std::to_string(t.ov) + (t.ov == 2 ? ";rmin=" + t.rmin + ";rcut=" + t.rcut : "");
+    };
+    std::vector<std::string> tabcases;
     for (auto &rg : RNG) {
-      for (auto &a : C12) for (auto &b : C6) {
+      for (auto &a : LC12) for (auto &b : LC6) {
         std::string base = "f=lj126;min=" + rg.first + ";cut=" + rg.second + ";lam=" + a + "," + b;
-        C.push_back("p;" + base);
-        bool A_ = rg.first == "0.5";  // steps chosen so that (rcut-rmin)/step is an integer: the requested grid is unambiguous
-        for (std::string st : {std::string("0.1"), std::string(A_ ? "0.25" : "0.15")}) {
-          tabcases.push_back("t;" + base + ";step=" + st + ";ov=1");
-          std::string rmin = A_ ? "0.25" : (st == "0.1" ? "0.2" : "0.15");
-          tabcases.push_back("t;" + base + ";step=" + st + ";ov=2;rmin=" + rmin + ";rcut=" + (A_ ? "1.75" : "1.2"));
-        }
+        C.push_back("p;" + base + nr);
+        for (auto &t : tabs(rg.first, true)) tabcases.push_back(tabstr(base, t));
       }
       for (auto &a : C12) for (auto &b : C6) for (auto &c : A) for (auto &d : W) for (auto &e : R0) {
         std::string base = "f=ljg;min=" + rg.first + ";cut=" + rg.second + ";lam=" + a + "," + b + "," + c + "," + d + "," + e;
-        C.push_back("p;" + base);
-        if (a == "1" && b == "1") {
-          tabcases.push_back("t;" + base + ";step=0.1;ov=1");
-          tabcases.push_back("t;" + base + ";step=0.05;ov=2;rmin=" + rg.first + ";rcut=" + rg.second);
-        }
+        C.push_back("p;" + base + nr);
+        if (a == "1" && b == "1") for (auto &t : tabs(rg.first, false)) tabcases.push_back(tabstr(base, t));
       }
     }
-    // cubic B-spline: (knots, min, cut) -> number of optimised coefficients 5 and 6
+    // cubic B-spline: (knots, min, cut) -> number of optimised coefficients 5, 6 and 7
     struct CB { std::string nk, mn, cut; int nopt; };
-    std::vector<CB> CBS = {{"10", "0", "1", 5}, {"12", "0.24", "1.2", 6}};
+    std::vector<CB> CBS = {{"10", "0", "1", 5}, {"12", "0.24", "1.2", 6}, {"12", "0", "1.2", 7}};
     const std::vector<std::string> CA = {"0.5", "-1", "2"};
     for (auto &cb : CBS) {
-      if (cb.nopt == 6 && !thorough) continue;
+      if (cb.nopt >= 6 && !thorough) continue;
       std::vector<int> idx(cb.nopt, 0), radix(cb.nopt, 3);
       do {
         std::vector<std::string> lam; for (int k = 0; k < cb.nopt; k++) lam.push_back(CA[idx[k]]);
         std::string base = "f=cbspl;nk=" + cb.nk + ";min=" + cb.mn + ";cut=" + cb.cut + ";lam=" + join(lam);
-        C.push_back("p;" + base);
+        C.push_back("p;" + base + nr);
         int s = 0; for (int k : idx) s += k;
-        if (s <= 2) {
-          tabcases.push_back("t;" + base + ";step=" + (cb.mn == "0" ? "0.1" : "0.08") + ";ov=1");
+        if (s <= (thorough ? 4 : 2)) {
+          tabcases.push_back("t;" + base + ";step=" + (cb.cut == "1" ? "0.1" : "0.08") + ";ov=1");
           tabcases.push_back("t;" + base + ";step=0.05;ov=2;rmin=" + (cb.mn == "0" ? "0.1" : "0.2") + ";rcut=" + cb.cut);
+          if (thorough) tabcases.push_back("t;" + base + ";step=0.025;ov=2;rmin=0;rcut=" + cb.cut);
         }
       } while (bsx::next(idx, radix));
     }
@@ -517,22 +571,52 @@ static void all_cases(bool thorough, CaseList &C) {
   }
   // splines: the C12 data sets
   {
+    auto interp_cases = [&](const std::vector<c12::Vec> &G, int n, const c12::Vec &alphabet) {
+      for (auto &g : G)
+        for (std::string type : {"linear", "cubic", "akima"}) {
+          if (n < c12::minknots(type)) continue;
+          for (int per = 0; per < 2; per++)
+            for (auto &y : c12::ordinates(n, per == 1, alphabet))
+              C.push_back("s;t=" + type + ";bc=" + (per ? "per" : "nat") + ";mode=interp;x=" + c12::vecstr(g) + ";y=" + c12::vecstr(y));
+        }
+    };
+    const c12::Vec A0 = {0.0, 1.0, -1.0, 2.0};
     int maxn = thorough ? 5 : 4;
     for (int n = 2; n <= maxn; n++)
-      for (double x0 : {0.0, -1.5})
-        for (auto &g : c12::grids(n, x0))
-          for (std::string type : {"linear", "cubic", "akima"}) {
-            if (n < c12::minknots(type)) continue;
+      for (double x0 : {0.0, -1.5}) interp_cases(c12::grids(n, x0), n, A0);
+    if (thorough) {
+      // 6 knots on spacings {0.5,2}; other spacing alphabets (incl. decimal, not binary-exact); larger / badly scaled ordinate alphabets
+      for (double x0 : {0.0, -1.5}) interp_cases(c12::grids(6, x0, {0.5, 2.0}), 6, A0);
+      for (int n = 2; n <= 4; n++)
+        for (double x0 : {0.0, -1.5}) {
+          interp_cases(c12::grids(n, x0, {0.75, 0.25, 1.5, 3.0}), n, A0);
+          interp_cases(c12::grids(n, x0, {0.1, 0.3, 0.7}), n, A0);
+          interp_cases(c12::grids(n, x0), n, {0.0, 1.0, -1.0, 3.0, 0.5, -2.0});
+          interp_cases(c12::grids(n, x0), n, {0.0, 1.0, -1000.0, 0.001});
+        }
+      for (int n : {12, 40, 200})
+        for (int uni = 0; uni < 2; uni++) {
+          static const double S[3] = {1.0, 0.5, 2.0};
+          c12::Vec g{-1.5};
+          for (int k = 0; k + 1 < n; k++) g.push_back(g.back() + (uni ? 0.5 : S[(k * 7 + k / 5) % 3]));
+          for (std::string type : {"linear", "cubic", "akima"})
             for (int per = 0; per < 2; per++)
-              for (auto &y : c12::ordinates(n, per == 1))
+              for (int pat = 0; pat < 3; pat++) {
+                c12::Vec y(n);
+                for (int k = 0; k < n; k++) y[k] = pat == 0 ? A0[(3 * k + k / 4) % 4] : (pat == 1 ? (k == n / 2 ? 1.0 : 0.0) : std::sin(0.37 * g[k]));
+                if (per) y[n - 1] = y[0];
                 C.push_back("s;t=" + type + ";bc=" + (per ? "per" : "nat") + ";mode=interp;x=" + c12::vecstr(g) + ";y=" + c12::vecstr(y));
-          }
+              }
+        }
+    }
     // fits: grids coarser than the data (data step 1/8), ordinate patterns over the alphabet
     struct FG { std::string fg; double lo, hi; };
-    for (FG fg : {FG{"0,0.5,2", 0, 2}, FG{"0,1,3", 0, 3}, FG{"-1.5,0.5,0.5", -1.5, 0.5}, FG{"0,0.3,1", 0, 1}}) {
+    std::vector<FG> FGS = {FG{"0,0.5,2", 0, 2}, FG{"0,1,3", 0, 3}, FG{"-1.5,0.5,0.5", -1.5, 0.5}, FG{"0,0.3,1", 0, 1}};
+    if (thorough) { FGS.push_back(FG{"0,0.25,1", 0, 1}); FGS.push_back(FG{"-2,1,3", -2, 3}); FGS.push_back(FG{"0,0.4,2.2", 0, 2.125}); FGS.push_back(FG{"0,0.5,20", 0, 20}); }
+    for (FG fg : FGS) {
       c12::Vec x; for (double r = fg.lo; r <= fg.hi + 1e-12; r += 0.125) x.push_back(r);
       const double A[4] = {0.0, 1.0, -1.0, 2.0};
-      for (int pat = 0; pat < (thorough ? 16 : 8); pat++) {
+      for (int pat = 0; pat < (thorough ? 64 : 8); pat++) {
         c12::Vec y;
         for (size_t i = 0; i < x.size(); i++)
           y.push_back(pat == 0 ? 1.0 + 0.5 * x[i] : (pat == 1 ? x[i] * x[i] : A[(i * (size_t)(pat / 4 + 1) + (size_t)pat) % 4]));
@@ -567,24 +651,32 @@ int main(int argc, char **argv) {
       "s: linear/cubic/Akima Interpolate on all grids of spacings {0.5,1,2} with 2..4 (thorough 5) knots x shifts {0,-1.5} x all ordinate vectors over "
       "{-1,0,1,2} x natural/periodic, cubic/linear Fit on 4 grids: CalculateDerivative vs Richardson difference of Calculate at 3 points inside every "
       "interval. distinct_nontrivial = distinct (interaction, value) + distinct potential value signatures + distinct spline derivative signatures";
+  if (thorough)
+    R.rule += " || THOROUGH lattice: bond lengths {0.5,0.8,1,1.5,2}, angles 10..170 step 2.5 deg, dihedrals -165..165 step 15 deg "
+              "(without 0), dihedral bond angles {45,60,90,120,135,150}^2, 10 rigid motions in the open box, boxes cubic/ortho/2 triclinic/large ortho x "
+              "(unshifted + every bead x 8 box-vector combinations) under all 10 motions (bond, angle) or motions {0,2,4,7,8} (dihedral); LJ126 5x5 vectors, "
+              "LJG 3x3x4x4x4, CBSPL 3^5+3^6+3^7, 3 (min,cut) ranges, 17 r; SavePotTab with 3-7 step/range combinations each; splines additionally: 5 knots, "
+              "6 knots on spacings {0.5,2}, spacing alphabets {0.25,0.75,1.5,3} and {0.1,0.3,0.7}, ordinate alphabets {-2,-1,0,0.5,1,3} and {-1000,0,0.001,1}, "
+              "grids of 12/40/200 knots, Fit on 8 grids x 64 data patterns";
   CaseList CL(a);
-  all_cases(thorough, CL);
-  const std::vector<std::string> &C = CL.mine;
-  R.counters["cases_in_all_shards"] = a.shard == 0 ? CL.n : 0;
   std::map<char, int> sampled;
   double maxtol = 0;
-  for (long long i = 0; i < (long long)C.size(); i++) {
-    Res r = run_case(C[i]);
+  long long i = 0;
+  CL.sink = [&](const std::string &cas) {
+    Res r = run_case(cas);
     R.eval();
     R.counters["comparisons"] += r.checks;
-    R.counters[std::string("cases_") + C[i][0]]++;
+    R.counters[std::string("cases_") + cas[0]]++;
     maxtol = std::max(maxtol, r.maxtol);
-    for (auto &f : r.fails) R.fail(f.first, f.second + "  [" + C[i] + "]", C[i]);
+    for (auto &f : r.fails) R.fail(f.first, f.second + "  [" + cas + "]", cas);
     for (auto &c : r.classes) R.cls(c);
-    if (r.fails.empty() && sampled[C[i][0]] < 2 && i % 37 == 5) { sampled[C[i][0]]++; R.sample(C[i] + " -> " + r.sample); }
-  }
+    if (r.fails.empty() && sampled[cas[0]] < 2 && i % 37 == 5) { sampled[cas[0]]++; R.sample(cas + " -> " + r.sample); }
+    i++;
+  };
+  all_cases(thorough, CL);
+  R.counters["cases_in_all_shards"] = a.shard == 0 ? CL.n : 0;
   fprintf(stderr, "largest tolerance granted in this shard: %g\n", maxtol);
-  R.assumptions = {"geometries within 15 degrees of the singular ones (angle 0/180, dihedral 0/180, collinear dihedral arms) are not on the lattice",
+  R.assumptions = {std::string("geometries within ") + (thorough ? "10 (angles) / 15 (dihedrals)" : "15") + " degrees of the singular ones (angle 0/180, dihedral 0/180, collinear dihedral arms) are not on the lattice",
                    "bond lengths <= 2 in boxes >= 8, so the minimum image is unambiguous (C02 covers the convention itself)",
                    "finite-difference tolerance = 8 x (difference of two Richardson levels + rounding bound) + 1e-9..1e-10 relative",
                    "CBSPL derivatives are taken w.r.t. the optimised coefficients (setOptParam/getOptParam), as CalculateDF documents",
